@@ -126,12 +126,7 @@ def run(an: Analysis, rep):
                         f"stores there re-encode identically - information is lost", config=cfg)
         # ---- R01.4
         disp, top = _dispositions(an, V)
-        for N in C.COMPILER_EMITTABLE:
-            d = disp.get(N)
-            rep.add("R01.4", f"flag {N} representable", d == "consumed", loc(top.module, top.node),
-                    "consumed into a CodeData/Function/Args field" if d == "consumed" else
-                    f"the compiler can emit flag {N} but the decoder's disposition for it is '{d}': from_code raises on a valid program "
-                    f"(e.g. `from __future__ import {N}`)" if d == "rejected" else f"disposition '{d}'", config=cfg)
+        r014(an, rep, V)
         # ---- R01.5
         r015(an, rep, V)
     from .common import SharedRules
@@ -139,6 +134,7 @@ def run(an: Analysis, rep):
     rep.run(r016, an, rep)
     rep.run(r015_order, an, rep)
     rep.run(r015_every_line, an, rep)
+    rep.run(r01a, an, rep)
     rep.run(r017, an, rep)
     from .common import identity_rule, rebuild_rule
     rep.run(identity_rule, an, rep, "R01.9", ["from_code", "to_code"])
@@ -157,6 +153,25 @@ def run(an: Analysis, rep):
         rep.add("R01.3", f"{cq}.{fname}::produced", ok, where, why + (f" (under {cfg})" if ok else " (under every interpreter version)"), config=cfg)
     rep.stats.update(an.stats(interps))
     rep.assumptions += ["code() constructor signatures and compiler-emittable flags as frozen in reference/contracts.py"]
+
+
+def r014(an: Analysis, rep, V, rule="R01.4"):
+    """Every flag a code object can legitimately carry is taken into the data (not rejected): set by the compiler from the source, copied by
+    the compiler from compile(..., flags=), or set by the standard library on a function's code object."""
+    cfg = vname(V)
+    disp, top = _dispositions(an, V)
+    groups = [(C.COMPILER_EMITTABLE, "the compiler can emit flag {N}", "(e.g. `from __future__ import {N}`)"),
+              (C.EMITTABLE_VIA_COMPILE_FLAGS, "compile(..., flags=__future__.{N}.compiler_flag) - what doctest / codeop / the REPLs do - copies flag {N} into co_flags of the module and of every function in it", ""),
+              (C.EMITTABLE_BY_STDLIB, "types.coroutine() sets flag {N} on the code object of a generator function", "")]
+    for names, how, eg in groups:
+        for N in names:
+            if N not in disp:
+                continue
+            d = disp.get(N)
+            rep.add(rule, f"flag {N} representable", d == "consumed", loc(top.module, top.node),
+                    "consumed into a CodeData/Function/Args field" if d == "consumed" else
+                    (how.format(N=N) + f" but the decoder's disposition for it is '{d}': from_code raises on a valid code object " + eg.format(N=N)) if d == "rejected"
+                    else f"disposition '{d}'", config=cfg)
 
 
 def r016(an: Analysis, rep):
@@ -265,6 +280,62 @@ def r015_order(an: Analysis, rep):
             rep.add("R01.5", f"{f.qual}::first-line shift covers every line ({side})", not problems, loc(f.module, sc),
                     "; ".join(problems[:2]) + ": that line is off by co_firstlineno in the re-encoded table / decoded data" if problems
                     else f"the shift `{norm_src(sc)}` is ordered {'after every store into' if side == 'encode' else 'before every read of'} the mapping")
+
+
+def r01a(an: Analysis, rep, rule="R01.A", need="consumed"):
+    """What becomes of the line-table entries of the non-first code units of an instruction (the entries the decoder removes from the
+    mapping besides the one it stores in Instruction.line_number): *dropped* (popped, value unused - silently lossy), *rejected* (the value is
+    only compared and a mismatch raises - from_code fails on such a code object) or *consumed* (reaches the data). They are NOT always equal
+    to the first unit's: the 3.8 / 3.9 peephole pass leaves line boundaries behind an EXTENDED_ARG prefix.
+    need='consumed' (lossless round trip) or 'not dropped' (never silently lossy)."""
+    rep.rule(rule, "the line-table entries of every code unit reach the data" if need == "consumed" else "no entry of the decoded line mapping is dropped silently", 1)
+    lm = an.prog.cls("code_data._line_mapping::LineMapping")
+    dict_fields = [f.name for f in lm.fields if an.tg.field_type(f)[0] == "dict"]
+    it, _ = an.interp("from_code")
+    n = 0
+    for f in an.closure("from_code"):
+        if f.cls is not None and f.cls.qual == lm.qual:
+            continue
+        for st in ast.walk(f.node):
+            call = None
+            target = None
+            if isinstance(st, ast.Expr) and isinstance(st.value, ast.Call):
+                call = st.value
+            elif isinstance(st, ast.Assign) and isinstance(st.value, ast.Call) and len(st.targets) == 1 and isinstance(st.targets[0], ast.Name):
+                call, target = st.value, st.targets[0].id
+            if call is None or not (isinstance(call.func, ast.Attribute) and call.func.attr in ("pop", "popitem", "clear") and isinstance(call.func.value, ast.Attribute)
+                                    and call.func.value.attr in dict_fields):
+                continue
+            fld = call.func.value.attr
+            if target is None:
+                disp = "dropped"
+            else:
+                # where does the popped value go?  only into tests that raise -> rejected; into a constructor / the returned data -> consumed
+                uses = [x for x in ast.walk(f.node) if isinstance(x, ast.Name) and x.id == target and isinstance(x.ctx, ast.Load)]
+                from .encode_model import parent_map
+                pm = parent_map(f.module)
+                in_test_only = True
+                for u in uses:
+                    cur = u
+                    ok_u = False
+                    while id(cur) in pm and pm[id(cur)] is not f.node:
+                        par = pm[id(cur)]
+                        if isinstance(par, (ast.If, ast.Assert)) and par.test is cur and (isinstance(par, ast.Assert) or any(isinstance(b_, ast.Raise) for b_ in par.body)):
+                            ok_u = True
+                        cur = par
+                    in_test_only = in_test_only and ok_u
+                disp = "rejected" if uses and in_test_only else ("consumed" if uses else "dropped")
+            n += 1
+            good = disp == "consumed" or (need == "not dropped" and disp == "rejected")
+            rep.add(rule, f"{f.qual}::{fld} entries of the later code units of an instruction", good, loc(f.module, st),
+                    f"disposition: {disp}" if good else
+                    (f"`{norm_src(st)[:70]}` removes an entry of {fld} without using it: the line information of that code unit is silently lost" if disp == "dropped" else
+                     f"the entry of {fld} popped by `{norm_src(st)[:60]}` is only compared with the instruction's own and a difference raises: the data keeps ONE line per instruction, so a "
+                     f"code object with a line boundary behind an EXTENDED_ARG prefix (3.8 / 3.9 peephole: 300 assignments, then `def f(a,\\n b=()): pass` - co_lnotab ends "
+                     f"(8,2)(2,-1)) cannot be decoded")
+                    + ("" if need != "consumed" else ": from_code is not total on compiler output / the round trip cannot reproduce co_lnotab"))
+    if n == 0:
+        raise AnalysisError("the decoder does not remove the later code units' entries from the line mapping: leftover handling not recognised")
 
 
 def r015_every_line(an: Analysis, rep):
